@@ -6,12 +6,33 @@ sys.path.insert(0, os.path.join(ROOT, 'lib'))
 import design_tables as T
 D = os.path.join(ROOT, 'docs', 'design')
 parts = [open(os.path.join(D, n)).read() for n in ('00_head.md', '01_system.md', '02_technique.md', '03_properties.md', '04_tail.md', '05_appendix.md')]
+MODELS = {'C01': 'Consensus, CommitConsensus, Discovery', 'C02': 'SeqRange, CommitMerkle', 'C03': 'CommitSM', 'C04': 'CommitSys (+ C01/C02/C03 models)',
+          'C05': 'CommitRmnGate, CommitSM', 'C06': 'Rmn', 'C07': 'ExecMerge, Consensus', 'C08': 'Merkle, ExecReport', 'C09': 'ExecPending (+ ExecReport)',
+          'C10': 'Determinism, Consensus, Transmit', 'C11': 'Roles', 'C12': 'Roles', 'C13': 'PanicSites, Rmn, Truncate', 'C14': 'Prices, Consensus',
+          'C15': 'Curses', 'C16': 'Transmit', 'C17': 'Truncate', 'C18': 'Pollers', 'C19': 'BgObserver', 'C20': 'Codec'}
+
+
+def prop_table():
+    import json
+    fs = json.load(open(os.path.join(ROOT, 'known_findings.json')))['findings']
+    out = ['| id | model (coq/Model) | thm | quick cases (distinct non-trivial) | quick s | findings (§4) |', '|----|----|----|----|----|----|']
+    for pid in sorted(MODELS):
+        ev = json.load(open(os.path.join(ROOT, 'evidence', pid + '.json')))
+        c = ev['coverage']
+        fx = [f['id'] for f in fs if f['property'] == pid and f['status'] == 'fixed']
+        kn = [f['id'] for f in fs if f['property'] == pid and f['status'] == 'known']
+        ftxt = '; '.join(x for x in [(', '.join(fx) + ' fixed') if fx else '', (', '.join(kn) + ' known') if kn else ''] if x) or '—'
+        out.append('| %s | %s | %d | %d (%d) | %d | %s |' % (pid, MODELS[pid], c['obligations'], c['evaluations'], c['distinct_nontrivial'], round(ev['wall_s']), ftxt))
+    return '\n'.join(out)
+
+
 ft, nfix, nknown = T.findings()
 st, n, det, conc = T.seeded()
 nthm = 0
 for f in glob.glob(os.path.join(ROOT, 'coq', 'Props', '*.v')):
     nthm += len(re.findall(r'^Theorem ', open(f).read(), flags=re.M))
 txt = '\n'.join(parts)
+txt = txt.replace('PROPERTY_TABLE', prop_table())
 txt = txt.replace('FINDINGS_TABLE', ft).replace('SEEDED_TABLE', st)
 txt = txt.replace('SEEDED_SUMMARY', '%d seeded changes: %d reported as VIOLATION by the current checks, %d of them with a concrete failing '
                   'input as replay. Changes marked in the last column were missed by an earlier version of a check and led to the '
@@ -20,7 +41,7 @@ txt = re.sub(r'\*\*\d+ genuine defects\*\*', '**%d genuine defects**' % (nfix + 
 txt = re.sub(r'\d+ were repaired\nwith small', '%d were repaired\nwith small' % nfix, txt)
 txt = re.sub(r'passes after each\), \d+ are recorded', 'passes after each), %d are recorded' % nknown, txt)
 txt = re.sub(r'\d+ independently seeded changes', '%d independently seeded changes' % n, txt)
-txt = re.sub(r'of the\n\d+ seeded changes', 'of the\n%d seeded changes' % n, txt)
+txt = re.sub(r'of the\s+\d+ seeded changes were missed', 'of the %d seeded changes were missed at first' % n, txt)
 txt = re.sub(r'\b\d+ property theorems', '%d property theorems' % nthm, txt)
 open(os.path.join(ROOT, 'DESIGN.md'), 'w').write(txt)
 print('DESIGN.md: %d bytes, %d theorems, %d fixed, %d known, %d seeded (%d detected)' % (len(txt), nthm, nfix, nknown, n, det))
